@@ -48,7 +48,8 @@ def check_bootstrap(case):
     base = RecordingRegressor(yield_fit=case.get("yield_fit", 0), random_state=case.get("base_random_state"), keep_reference=bool(case.get("keep_reference")))
     facts["keep_reference"] = bool(case.get("keep_reference"))
     facts["base_random_state"] = case.get("base_random_state")
-    model = _mod.IntervalRegressor(estimator=base, **np_scalars(dict(n_estimators=ne, alpha=alpha, n_jobs=case["n_jobs"]), case.get("np_params", False)))
+    model = _mod.IntervalRegressor(estimator=base, verbose=bool(case.get("verbose")), **np_scalars(dict(n_estimators=ne, alpha=alpha, n_jobs=case["n_jobs"]), case.get("np_params", False)))
+    facts["verbose"] = bool(case.get("verbose"))
     # the training table may be a DataFrame and the targets / weights pandas Series whose index is not 0..n-1 in order (a frame that
     # was sorted and not re-indexed): a drawn row is a position, its features, target and weight stay together
     cont = case.get("container", "array")
@@ -62,7 +63,10 @@ def check_bootstrap(case):
         yin = pandas.Series(y, index=idx)
         win = None if w is None else pandas.Series(w, index=idx)
     np.random.seed(case["seed"])
-    r = model.fit(Xin, yin, win) if w is not None else model.fit(Xin, yin)
+    import contextlib
+    import io
+    with contextlib.redirect_stdout(io.StringIO()), contextlib.redirect_stderr(io.StringIO()):       # verbose=True only prints
+        r = model.fit(Xin, yin, win) if w is not None else model.fit(Xin, yin)
     require(r is model, "fit:not-self", "", facts)
     require(not hasattr(base, "seen_X_"), "base-estimator-fitted", "the estimator passed in was fitted in place", facts)
     ests = list(model.estimators_)
@@ -163,7 +167,7 @@ def _boot_cases(draw, tier="quick"):
                 n_jobs=draw(st.sampled_from([None, None, 1, 2])), seed=draw(st.integers(0, 2**31 - 1)),
                 yield_fit=draw(st.sampled_from([0, 0, 1])), base_random_state=draw(st.sampled_from([None, None, 0, 7, 12345])), zero_w=draw(st.lists(st.integers(0, 11), max_size=3)) if draw(st.integers(0, 2)) == 0 else [],
                 container=draw(st.sampled_from(["array", "array", "frame", "frame-permuted-index", "series-permuted-index"])),
-                keep_reference=draw(st.booleans()))
+                keep_reference=draw(st.booleans()), verbose=draw(st.integers(0, 3)) == 0)
 
 
 @st.composite
